@@ -9,9 +9,9 @@ def _add(m, nb, t, fn, tiers, known=None):
     what = "context cancelled before the block" if t < 0 else "insert #%d into table %s fails" % (fn, TABLES[t])
     OBLIGATIONS.append(dict(
         name="C07.a bridge store: %d committed block(s), then a block with %d bridge(s) (+ optional claim) in which %s: nothing recorded; retry == fault-free run" % (m, nb, what),
-        harness=B + "ZZVerif_C07_BridgeFault", params={"M": m, "NB": nb, "T": t, "FN": fn}, tiers=tiers, time_limit_s=3000,
+        harness=B + "ZZVerif_C07_BridgeFault", params={"M": m, "NB": nb, "T": t, "FN": fn, "LAYOUT": 4 + 6 * 1}, tiers=tiers, time_limit_s=3000,
         known_finding=known,
-        bounds="%d prior block(s) with 0..1 bridge and 0..1 claim, faulty block with %d bridge(s) and 0..1 claim, all field values; restart after the fault or not" % (m, nb)))
+        bounds="%d prior block(s) (first: one bridge and one claim; second: one bridge), faulty block with %d bridge(s) and 0..1 claim, all field values; restart after the fault or not" % (m, nb)))
 
 
 # quick: one fault position per table; thorough: every statement position of the block's transaction
